@@ -941,6 +941,208 @@ def rule_entries(rep, repo):
               (show(g(tc), 200), show(total, 200)), loc=loc)
 
 
+SETTINGS = "qkeras.qtools.settings"
+PROCESS_COSTS = ("fpm_add", "fpm_mul", "fp16_add", "fp16_mul", "fp32_add",
+                 "fp32_mul", "sram_rd", "dram_rd")
+
+
+def rule_process_settings(rep, repo):
+  """R9: the cost polynomials every energy entry is priced with are the
+  ones of the selected process.  ConfigClass.update is interpreted (np.poly1d
+  a stand-in that keeps its coefficients) with process entries that define
+  all, one, or some of the eight cost polynomials: afterwards every
+  polynomial the process defines has the process's coefficients and every
+  other one still has its default; default_*_quantizer and include_energy
+  entries (a "Q" class also sets the Keras class) are taken over."""
+  sm = repo.module(SETTINGS)
+  ci = sm.classes.get("ConfigClass")
+  if ci is None or ci.find_method("update")[1] is None:
+    raise AnalysisError("anchor-missing settings.ConfigClass.update")
+  unit = "%s::ConfigClass.update" % sm.relpath
+  rep.unit(unit)
+  loc = sm.loc(ci.find_method("update")[1])
+
+  def new_pe():
+    pe = PE(repo)
+    pe.ext_overrides = {"np.poly1d": lambda pe_, a, k: Mock(
+        "poly1d", {"coeffs": list(a[0])})}
+    return pe
+
+  def coeffs(c, name):
+    v = c.attrs.get(name)
+    return [F(e) for e in v.attrs["coeffs"]] if isinstance(v, Mock) else v
+  pe = new_pe()
+  base = pe.call(pe.lookup_global("ConfigClass", sm), [], {})
+  defaults = {k: coeffs(base, k) for k in PROCESS_COSTS}
+  rep.check(all(isinstance(v, list) for v in defaults.values()), "R9", unit,
+            "default-cost-polynomials",
+            "ConfigClass() does not define the eight cost polynomials: %r" %
+            defaults, loc=loc)
+  subsets = [tuple(PROCESS_COSTS), ()] + [(k,) for k in PROCESS_COSTS] + [
+      ("sram_rd", "dram_rd"), ("fpm_mul", "fp32_mul", "dram_rd"),
+      ("fp16_add", "sram_rd"), ("fpm_add", "dram_rd")]
+  for sub in subsets:
+    given = {k: [F(PROCESS_COSTS.index(k) + 2), F(1, 2)] for k in sub}
+    cfg = "process defines %s" % (list(sub) or "nothing")
+    pe = new_pe()
+    try:
+      c = pe.call(pe.lookup_global("ConfigClass", sm), [], {})
+      pe.call(pe.getattr(c, "update"), ["p", {
+          "p": {k: list(v) for k, v in given.items()},
+          "other": {k: [F(99)] for k in PROCESS_COSTS}}], {})
+    except PyRaise as e:
+      rep.fail("R9", unit, "update-raises", "%s: update raises %s" % (cfg, e),
+               loc=loc, instance=cfg)
+      continue
+    wrong = ["%s=%s (expected %s)" % (k, coeffs(c, k), given.get(
+        k, defaults[k])) for k in PROCESS_COSTS
+             if coeffs(c, k) != given.get(k, defaults[k])]
+    rep.check(not wrong, "R9", unit, "process-costs-not-applied",
+              "%s: after update('p', settings) %s" % (cfg, wrong), loc=loc,
+              instance=cfg)
+  # a process the settings do not know, the other entries
+  pe = new_pe()
+  c = pe.call(pe.lookup_global("ConfigClass", sm), [], {})
+  try:
+    pe.call(pe.getattr(c, "update"), ["unknown", {
+        "default_source_quantizer": "SRC", "default_interm_quantizer": "INT",
+        "include_energy": {"QDense": ["outputs"], "MaxPooling2D": ["inputs"]},
+        "p": {"fpm_add": [F(7)]}}], {})
+    inc = c.attrs.get("include_energy", {})
+    ok = all(coeffs(c, k) == defaults[k] for k in PROCESS_COSTS) and \
+        c.attrs.get("default_source_quantizer") == "SRC" and \
+        c.attrs.get("default_interm_quantizer") == "INT" and \
+        inc.get("QDense") == ["outputs"] and inc.get("Dense") == [
+            "outputs"] and inc.get("MaxPooling2D") == ["inputs"] and \
+        inc.get("default") == ["inputs", "parameters", "op_cost"]
+    rep.check(ok, "R9", unit, "other-settings-not-applied",
+              "update('unknown', settings): costs %r, source %r, interm %r, "
+              "include_energy %r" % (
+                  {k: coeffs(c, k) for k in PROCESS_COSTS if coeffs(c, k) !=
+                   defaults[k]}, c.attrs.get("default_source_quantizer"),
+                  c.attrs.get("default_interm_quantizer"), inc), loc=loc)
+  except PyRaise as e:
+    rep.fail("R9", unit, "update-raises", "update('unknown', ...) raises %s"
+             % e, loc=loc)
+  # the energy tables read the module-level configuration object when an
+  # entry is priced (not a copy made at import time)
+  qe = repo.module(QE)
+  rep.check(qe.imports.get("cfg") == SETTINGS + ".cfg", "R9",
+            "%s::OP" % qe.relpath, "energy-table-configuration-object",
+            "qenergy does not price with settings.cfg (imports: %r)" %
+            qe.imports.get("cfg"))
+
+
+def rule_qtools_wiring(rep, repo):
+  """R10: QTools.__init__ and QTools.pe interpreted with the sub-systems as
+  recording stand-ins: the selected process is applied to the configuration
+  before anything reads it (the default source quantizer handed to the graph
+  builder is the configured one), activations are propagated to the edges
+  before the data-type map is generated from that graph, the map is what
+  `pe` prices, and `pe` hands its placement options to energy_estimate in
+  the callee's order."""
+  rq = repo.module(RQ)
+  qt = rq.classes.get("QTools")
+  if qt is None or "pe" not in qt.methods or "__init__" not in qt.methods:
+    raise AnalysisError("anchor-missing QTools.__init__ / QTools.pe")
+  unit = "%s::QTools" % rq.relpath
+  rep.unit(unit)
+  loc = rq.loc(qt.methods["__init__"])
+  log = []
+  cfgm = Mock("cfg", {"default_source_quantizer": "DEFAULT_SRC"})
+
+  def upd(pe, a, k):
+    log.append(("cfg.update", a[0], a[1]))
+    cfgm.attrs["default_source_quantizer"] = "CONFIGURED_SRC"
+  cfgm.attrs["update"] = upd
+  graph = Mock("graph", {})
+
+  def create(pe, a, k):
+    log.append(("CreateGraph", a[0], a[1], a[2]))
+    return (graph, ["SQ"])
+
+  def gen(pe, a, k):
+    log.append(("generate_layer_data_type_map", a[0], a[1], a[2], dict(k),
+                list(a[3:])))
+    return "LAYER_MAP"
+
+  def energy(pe, a, k):
+    log.append(("energy_estimate", list(a), dict(k)))
+    return {"total_cost": 0}
+  model = Mock("model", {})
+  pe = PE(repo, module_overrides={RQ: {
+      "cfg": cfgm, "config_settings": "SETTINGS",
+      "qgraph": Mock("qgraph", {
+          "CreateGraph": create,
+          "GraphPropagateActivationsToEdges": lambda pe_, a, k: log.append(
+              ("propagate", a[0]))}),
+      "generate_layer_data_type_map": Mock("gen", {
+          "generate_layer_data_type_map": gen}),
+      "interface": Mock("interface", {
+          "map_to_json": lambda pe_, a, k: ("JSON", a[0])}),
+      "qenergy": Mock("qenergy", {"energy_estimate": energy})}})
+  try:
+    q = pe.call(ClassRef(qt), [model, "my_process"], {
+        "source_quantizers": "SRC", "is_inference": True,
+        "keras_quantizer": "KQ", "keras_accumulator": "KA",
+        "for_reference": "REF", "hw_weight_dict": "HW",
+        "model_weights_already_quantized": "MWAQ"})
+    pe.call(pe.getattr(q, "pe"), [], {
+        "weights_on_memory": "sram", "activations_on_memory": "fixed",
+        "min_sram_size": 77, "rd_wr_on_io": "RDWR"})
+  except PyRaise as e:
+    rep.fail("R10", unit, "raises", "QTools(...) / pe(...) raises %s" % e,
+             loc=loc)
+    return
+  names = [e[0] for e in log]
+  rep.check(names == ["cfg.update", "CreateGraph", "propagate",
+                      "generate_layer_data_type_map", "energy_estimate"],
+            "R10", unit, "construction-order",
+            "QTools.__init__ + pe call %s" % names, loc=loc)
+  if names[:1] == ["cfg.update"]:
+    rep.check(log[0][1:] == ("my_process", "SETTINGS"), "R10", unit,
+              "process-not-applied",
+              "cfg.update receives %r, expected the selected process and "
+              "the settings" % (log[0][1:],), loc=loc)
+  by = {e[0]: e for e in log}
+  if "CreateGraph" in by:
+    rep.check(by["CreateGraph"][1] is model and by["CreateGraph"][2] == "SRC"
+              and by["CreateGraph"][3] == "CONFIGURED_SRC", "R10", unit,
+              "graph-built-with-stale-configuration",
+              "CreateGraph receives (%r, %r, %r); expected the model, the "
+              "given source quantizers and the default source quantizer of "
+              "the configuration after the process was applied" %
+              by["CreateGraph"][1:], loc=loc)
+  if "propagate" in by:
+    rep.check(by["propagate"][1] is graph, "R10", unit, "propagate-graph",
+              "activations are propagated on %r" % (by["propagate"][1],),
+              loc=loc)
+  if "generate_layer_data_type_map" in by:
+    g = by["generate_layer_data_type_map"]
+    rep.check(g[1] is graph and g[2] == ["SQ"] and g[3] is True and
+              g[5] == ["KQ", "KA", "REF"] and g[4] == {
+                  "model_weights_already_quantized": "MWAQ",
+                  "hw_weight_dict": "HW"}, "R10", unit, "map-arguments",
+              "generate_layer_data_type_map receives %r" % (g[1:],), loc=loc)
+  if "energy_estimate" in by:
+    a, k = by["energy_estimate"][1:]
+    rep.check(a[:2] == [model, "LAYER_MAP"] and a[2:] == [
+        "sram", "fixed", 77, "RDWR"] and not k, "R10", unit,
+              "energy-arguments",
+              "pe(weights_on_memory='sram', activations_on_memory='fixed', "
+              "min_sram_size=77, rd_wr_on_io='RDWR') calls energy_estimate "
+              "with %r %r" % (a, k), loc=rq.loc(qt.methods["pe"]))
+  # the callee's parameter order
+  qe = repo.module(QE)
+  efn = qe.functions["energy_estimate"]
+  params = [a.arg for a in efn.args.args]
+  rep.check(params[:6] == ["model", "layer_map", "weights_on_memory",
+                           "activations_on_memory", "min_sram_size",
+                           "rd_wr_on_io"], "R10",
+            "%s::energy_estimate" % qe.relpath, "parameter-order",
+            "energy_estimate takes %r" % params, loc=qe.loc(efn))
+
+
 def run(rep, repo, tier):
   rep.trusted.append("Keras compute_output_shape (output shapes are symbols)")
   rep.assumptions.append("the energy constants themselves and the rounding "
@@ -950,6 +1152,10 @@ def run(rep, repo, tier):
   rule_totals(rep, repo)
   rule_placement(rep, repo)
   rule_entries(rep, repo)
+  rule_process_settings(rep, repo)
+  rule_qtools_wiring(rep, repo)
+  rep.require_instances("R10", 6)
+  rep.require_instances("R9", 15)
   rep.require_instances("R7", 18)
   rep.require_instances("R6", 36)
   rep.require_instances("R1", 20)
